@@ -4,13 +4,12 @@
 set -e
 cd "$(dirname "$0")"
 export OCAMLRUNPARAM=s=8M
-cd coq
-coq_makefile -f _CoqProject -o Makefile
-timeout 3000 make -k -j16 || echo "some Coq targets failed (reported by the checks that need them)"
-cd ..
 python3 - <<'PY'
 import sys; sys.path.insert(0, "harness")
 import vlib
+ok, out = vlib.coq_make([], timeout=3000)
+if not ok:
+    print("some Coq targets failed (reported by the checks that need them):"); print(out[-2000:])
 vlib.ocaml_model()
 vlib.repo_objs()
 print("setup ok")
